@@ -1,0 +1,8 @@
+// SPDX-FileCopyrightText: 2026 The Pion community <https://pion.ly>
+// SPDX-License-Identifier: MIT
+
+//go:build !verif
+
+package sctp
+
+func verifCreated(*Association) {}
